@@ -36,10 +36,16 @@ RULE = ("(a) guided random schedules as for C14 with per-step comparison against
 ORDER = {"code": 0, "key": 1, "verifier": 2, "versions": 3, "message": 3, "closed": 5}
 
 
-def check_events(events, label, fifo):
-    """events: [(name, value)] in the order the application saw them"""
+def check_events(events, label, fifo, unique_msgs=False):
+    """events: [(name, value)] in the order the application saw them; `unique_msgs`: the peer's application never sent
+    the same bytes twice in this run, so a message value notified twice is ONE event occurring twice"""
     viol = []
     seen = {}
+    if unique_msgs:
+        vals = [v for n, v in events if n == "message"]
+        twice = sorted({str(v) for v in vals if vals.count(v) > 1})
+        if twice:
+            viol.append(("event-twice:message", f"{label}: the peer sent every message once; notified more than once: {twice[:4]} in {vals}"))
     names = [n for n, v in events if n != "welcome" and not n.endswith("!")]
     for i, n in enumerate(names):
         if n in ("code", "key", "verifier", "versions", "closed") and n in seen:
@@ -184,8 +190,9 @@ def run_pair(case):
                 viol.append(("get-after-closed-hangs", f"get_* after closed never fired: {sorted(pending)}"))
         # with an order-preserving server the clause holds across reconnects too: un-echoed messages
         # are re-submitted in submission order, and the server replays a mailbox in arrival order
-        viol += check_events(a.events, "delegated", fifo)
-        viol += check_events([(n, v) for n, v in b.events[:n0] if not n.startswith(("late-", "close2"))], "deferred", fifo)
+        viol += check_events(a.events, "delegated", fifo, unique_msgs=True)
+        viol += check_events([(n, v) for n, v in b.events[:n0] if not n.startswith(("late-", "close2"))], "deferred", fifo,
+                             unique_msgs=True)
         for c in (a, b):
             for ent in c.internal:
                 viol.append(("internal:" + ent[0], f"internal failure {ent}"))
